@@ -91,7 +91,7 @@ func (h *hist) mergeValue(old, v *model.Node, pol model.Policy) *model.Node {
 		h.mergedInto[old] = h.stepNo // a nil leaves a container in place
 		return old
 	case old.Kind == model.KNil && v.IsSub():
-		n := &model.Node{Kind: model.KSub}
+		n := &model.Node{Kind: model.KSub, HasA: v.HasA} // (an empty list is a list)
 		h.merge(n, v, pol)
 		return n
 	case old.Kind == model.KNil && v.Kind == model.KNil:
